@@ -375,6 +375,7 @@ def run(ctx):
                       (f'{u} is not in _ASTS_LEAF_SCOPE_SYMBOLS' if not in_filter else
                        f'the {u} branch of scope_symbols reads {sorted(reads)} but not `{field}`'), ss.lineno,
                       sample={'binder': f'{cname}.{field}', 'branch_reads': sorted(reads)})
+    check_category_independence(ctx)
 
 
 def symbol_branches(ctx, ss) -> dict[str, set]:
@@ -437,3 +438,65 @@ def symbol_branches(ctx, ss) -> dict[str, set]:
             out.setdefault(c, set()).update(r)
         break
     return out
+
+
+# ---- R16.3 -----------------------------------------------------------------------------------------------------------
+
+def check_category_independence(ctx):
+    """scope_symbols() computes several result categories selected by independent flags (`local`, `free`, ...).  A helper container that is
+    filled only under one flag must not be read under another one: with the first flag off the second category is computed from an empty
+    (or half-filled) set."""
+    from ..struct import parent_map, enclosing_tests
+    ctx.rule('R16.3', 'in scope_symbols() a container filled only under one category flag is not read outside that flag', 8)
+    n = 0
+    for fi in ctx.repo.funcs('fst', 'FST.scope_symbols'):
+        fn = fi.node
+        params = set(fi.params())
+        par = parent_map(fn)
+
+        def flags(node):
+            return {t.id for t, truth in enclosing_tests(fn, node, par) if isinstance(t, ast.Name) and t.id in params and truth}
+
+        MUT = ('update', 'add', 'append', 'extend', 'setdefault', 'difference_update', 'discard')
+        names = set()
+        for x in walk_no_nested(fn):
+            if isinstance(x, ast.Assign) and isinstance(x.targets[0], ast.Name):
+                v = x.value
+                if isinstance(v, (ast.List, ast.Dict, ast.Set)) or (isinstance(v, ast.Call) and call_name(v) in ('set', 'dict', 'list')):
+                    names.add(x.targets[0].id)
+        for name in sorted(names):
+            muts, reads, binds = [], [], []
+            for x in walk_no_nested(fn):
+                if isinstance(x, ast.Call) and isinstance(x.func, ast.Attribute) and isinstance(x.func.value, ast.Name) and x.func.value.id == name and \
+                        x.func.attr in MUT:
+                    muts.append(x)
+                elif isinstance(x, ast.Name) and x.id == name:
+                    if isinstance(x.ctx, ast.Store):
+                        binds.append(x)
+                    else:
+                        p = par.get(x)
+                        if not (isinstance(p, ast.Attribute) and p.attr in MUT):
+                            reads.append(x)
+            n += 1
+            # flags under which the container gets its content: creation + every population
+            fill = [flags(m) for m in muts] + [flags(b) for b in binds]
+            common = set.intersection(*fill) if fill else set()
+            mut_common = set.intersection(*[flags(m) for m in muts]) if muts else set()
+            for guard in (common | mut_common):
+                for r in reads:
+                    if guard not in flags(r):
+                        stmt = r
+                        while stmt in par and not isinstance(stmt, ast.stmt):
+                            stmt = par[stmt]
+                        ctx.bad('R16.3', fi.module, fi.qualname, f'{name}: filled under `{guard}`, read in `{norm(stmt, 60)}`',
+                                f'`{name}` gets its content only when `{guard}` is requested, but it is read where `{guard}` need not be set: with '
+                                f'{guard}=False the other category is computed from an empty set (e.g. declared global / nonlocal names reported as free)',
+                                r.lineno)
+                        break
+                else:
+                    continue
+                break
+            else:
+                ctx.ok('R16.3', f'{fi.module}|{fi.qualname}|{name}')
+    if n < 8:
+        raise AnalysisError(f'scope_symbols: only {n} helper containers found')
